@@ -1,5 +1,3 @@
 package main
 
 func runExtra(name string, cfg *PropConfig, tier string, w *World) *FuncReport { return nil }
-
-func tryReplay(w *World, rf *replayFile, o ObResult) bool { return false }
